@@ -282,7 +282,7 @@ Record sstate := {
   s_time : gtime;         (* zero_time = unset *)
   s_datalen : Z;
   s_blocks : list Z;
-  s_sized : bool          (* filesize still tracks the content (no raw UpdateFilesize) *)
+  s_sized : bool          (* the filesize field tracks the content (set by the API, no raw UpdateFilesize) *)
 }.
 
 Definition sum_list (l : list Z) : Z := fold_right Z.add 0 l.
@@ -300,8 +300,8 @@ Definition spec_init (i : init) : sstate :=
   | IFolder => mk TDirectory 0 zero_time 0 true
   | IFolderStat mode t => mk TDirectory (Z.land mode perm_mask) (tm t) 0 true
   | IWrap b => mk TRaw 0 zero_time (olen b) true
-  | ISymlink b => mk TSymlink 0 zero_time (blen b) true
-  | IHamt b fanout hashType mode t => mk THAMTShard (Z.land mode perm_mask) (tm t) (olen b) true
+  | ISymlink b => mk TSymlink 0 zero_time (blen b) false   (* no filesize field; read through len(Data) *)
+  | IHamt b fanout hashType mode t => mk THAMTShard (Z.land mode perm_mask) (tm t) (olen b) false
   end.
 
 Definition spec_step (s : sstate) (o : op) : option sstate :=
@@ -343,12 +343,14 @@ Definition meets (s : sstate) (v : view) : bool :=
   (v_ext v =? s_ext s) &&
   gtime_eqb (v_time v) (s_time s) &&
   Bool.eqb (v_tzero v) (is_zero (s_time s)) &&
-  (if s_sized s then
-     if (s_type s =? TFile) || (s_type s =? TRaw)
-     then v_size v =? to_u64 (s_datalen s + sum_list (s_blocks s))
-     else if s_type s =? TSymlink then v_size v =? s_datalen s
-     else true
+  (if (s_type s =? TFile) || (s_type s =? TRaw)
+   then (if s_sized s then v_size v =? to_u64 (s_datalen s + sum_list (s_blocks s)) else true)
+   else if s_type s =? TSymlink then v_size v =? s_datalen s
    else true).
+
+(** whether the property fixes the file size of a node in state [s] *)
+Definition size_specified (s : sstate) : bool :=
+  (s_sized s && ((s_type s =? TFile) || (s_type s =? TRaw))) || (s_type s =? TSymlink).
 
 (** ---------- equality tests ---------- *)
 Fixpoint zlist_eqb (a b : list Z) : bool :=
@@ -413,8 +415,7 @@ Definition check_case (c : case) : verdict :=
                  dsize_eqb mdsize dsize)
                 (meets s pre &&
                  match post with Some v => meets s v | None => false end &&
-                 (if s_sized s && ((s_type s =? TFile) || (s_type s =? TRaw) || (s_type s =? TSymlink))
-                  then dsize_eqb dsize (v_size pre, true) else true))
+                 (if size_specified s then dsize_eqb dsize (v_size pre, true) else true))
           | _, _ => VModelMismatch
           end
       end
